@@ -9,7 +9,9 @@ table with every reference kind drawn from defined / undefined / self / cyclic /
 text, (i-b) schema node paths (augment, deviation, leafref) written with dots, empty steps, odd prefixes, ending at
 module roots / rpc input and output / implicit cases, (i-c) small texts whose naive processing is super-linear
 (identity lattices, typedef chains, grouping towers, augment chains, include and import rings), each alone under
-its own time bound, (ii) statement-level mutation of the repository's YANG files, of the modules inlined in its
+its own time bound, (i-f) families of same-named identities spread over every kind of unit (module, submodule of a loaded /
+absent module, included by its module / a foreign module / a submodule / nobody) and derived from common bases in 0..k hops,
+(ii) statement-level mutation of the repository's YANG files, of the modules inlined in its
 tests and of (i), (iii) byte-level noise, (iv) histories interleaving loads, Process and reads under random options.
 
 No model is run here (NEED_ML = False): the model side of C01 is the totality theorems in
@@ -1986,6 +1988,145 @@ def fs_case(rnd, dist):
     return hist_line(opts, ",".join(ops), texts)
 
 
+# ------------------------------------------------------------------ (i-f) families of same-named identities in odd units
+
+ID_UNIT_KINDS = ["module"] * 7 + ["submodule-of-loaded-module"] * 4 + ["submodule-of-absent-module"] * 6 + \
+                ["submodule-of-loaded-module-unincluded", "submodule-of-itself", "submodule-of-a-submodule"]
+
+
+def identity_case(rnd, dist):
+    """One or two base modules z<i> with root identities; 2..5 deriving units of every kind a unit can have with respect
+    to the module it belongs to (plain module; submodule of a loaded module, included or not; submodule whose belongs-to
+    module is NOT loaded, included by a foreign loaded module / by another submodule / by two units / by nobody;
+    submodule that belongs to itself or to a submodule), each defining 1..3 identities whose names come from a
+    three-name pool (so 1..5 identities of ONE name in different units is the normal case, also the name of the base),
+    derived from a common base directly, through a local identity, through an identity of another unit (k hops), from
+    two bases at once, from itself or from nothing that exists.  Everything that sorts, merges, files or looks up
+    identities by name then meets ties whose members have no loaded module."""
+    nb = rnd.choice([1, 1, 1, 2])
+    texts, roots = [], []
+    for i in range(nb):
+        zn = "z%d" % i
+        ids = ["b"] + (["b2"] if rnd.random() < 0.3 else [])
+        body = "".join("  identity %s;\n" % n for n in ids)
+        if rnd.random() < 0.2:                     # the colliding name lives in the base's own module as well
+            body += "  identity v { base b; }\n"
+            dist["identity-family:base-module-defines-the-name-too"] += 1
+        revs = rnd.choice([[], [], ["2020-01-01"], ["2021-06-15", "2020-01-01"]])
+        body = "".join("  revision %s;\n" % r for r in revs) + body
+        texts.append((zn + ".yang", 'module %s {\n  namespace "urn:%s";\n  prefix %s;\n%s}\n' % (zn, zn, zn, body)))
+        if revs and rnd.random() < 0.25:           # a second revision of the base module is loaded too
+            texts.append(("%s@2019-12-31.yang" % zn, 'module %s {\n  namespace "urn:%s";\n  prefix %s;\n  revision 2019-12-31;\n%s}\n'
+                          % (zn, zn, zn, "".join("  identity %s;\n" % n for n in ids))))
+            dist["identity-family:base-module-in-two-revisions"] += 1
+        roots += [(zn, n) for n in ids]
+    nu = rnd.choice([2, 2, 3, 3, 4, 5])
+    units = []                                     # dict(name, kind, owner, prefix, includes, ids=[(name, [base refs])])
+    holders = []                                   # extra modules that exist only to include a submodule
+    for i in range(nu):
+        kind = rnd.choice(ID_UNIT_KINDS)
+        dist["identity-family:unit:" + kind] += 1
+        if kind == "module":
+            u = dict(name="m%d" % i, kind="module", owner=None, prefix="m%d" % i)
+        else:
+            u = dict(name="s%d" % i, kind="submodule", prefix="o%d" % i)
+            if kind.startswith("submodule-of-loaded-module"):
+                mods = [v for v in units if v["kind"] == "module"]
+                if mods and rnd.random() < 0.6:
+                    o = rnd.choice(mods)
+                else:
+                    o = dict(name="o%d" % i, kind="module", owner=None, prefix="o%d" % i, includes=[], ids=[], imports=set())
+                    holders.append(o)
+                u["owner"], u["prefix"] = o["name"], o["prefix"]
+                if not kind.endswith("unincluded"):
+                    o["includes"].append(u["name"])
+            elif kind == "submodule-of-absent-module":
+                u["owner"] = "y%d" % rnd.randrange(2)            # two such submodules may claim the same absent module
+                u["prefix"] = u["owner"]
+                inc = rnd.choice(["foreign-module"] * 5 + ["holder-module"] * 3 + ["another-submodule", "two-units", "nobody"])
+                dist["identity-family:absent-owner-included-by:" + inc] += 1
+                mods = [v for v in units if v["kind"] == "module"]
+                subs = [v for v in units if v["kind"] == "submodule"]
+                targets = []
+                if inc in ("foreign-module", "two-units") and mods:
+                    targets.append(rnd.choice(mods))
+                if inc == "another-submodule" and subs:
+                    targets.append(rnd.choice(subs))
+                if inc in ("holder-module", "two-units") or (inc != "nobody" and not targets):
+                    h = dict(name="x%d" % i, kind="module", owner=None, prefix="x%d" % i, includes=[], ids=[], imports=set())
+                    holders.append(h)
+                    targets.append(h)
+                for t in targets:
+                    t["includes"].append(u["name"])
+            elif kind == "submodule-of-itself":
+                u["owner"] = u["name"]
+            else:
+                subs = [v for v in units if v["kind"] == "submodule"]
+                u["owner"] = rnd.choice(subs)["name"] if subs else "s9"
+                if rnd.random() < 0.5 and units:
+                    rnd.choice(units)["includes"].append(u["name"])
+        u.setdefault("includes", [])
+        u["ids"], u["imports"] = [], set(z for z, _ in roots)
+        units.append(u)
+    # identities: names from a tiny pool, so that ties on the name are the rule
+    hops = 0
+    for u in units:
+        names = []
+        for _ in range(rnd.choice([1, 1, 1, 2, 2, 3])):
+            n = rnd.choice(["v", "v", "v", "v", "w", "b"])
+            if n in names and rnd.random() < 0.9:
+                continue
+            names.append(n)
+        for n in names:
+            refs = []
+            for _ in range(rnd.choice([1, 1, 1, 1, 2])):
+                r = rnd.random()
+                earlier = [(v, m) for v in units for m, _ in v["ids"] if v is not u and v["kind"] == "module"]
+                local = [m for m, _ in u["ids"] if m != n]
+                if r < 0.6 or (r < 0.8 and not local) or (0.8 <= r < 0.94 and not earlier):
+                    z, b = rnd.choice(roots)
+                    refs.append("%s:%s" % (z, b))
+                    how = "root"
+                elif r < 0.8:
+                    refs.append(rnd.choice(["", u["prefix"] + ":"]) + rnd.choice(local))
+                    how = "local-identity"
+                    hops += 1
+                elif r < 0.94:
+                    v, m = rnd.choice(earlier)
+                    u["imports"].add(v["name"])
+                    refs.append("%s:%s" % (v["name"], m))
+                    how = "identity-of-another-module"
+                    hops += 1
+                else:
+                    refs.append(rnd.choice([n, u["prefix"] + ":" + n, "nope", "z0:nope", "nopfx:b", "y0:v", "y0:b"]))
+                    how = "self-or-undefined"
+                dist["identity-family:derived-from:" + how] += 1
+            u["ids"].append((n, refs))
+    dist["identity-family:extra-hops:%d" % min(hops, 4)] += 1
+    count = collections.Counter(n for u in units for n, _ in u["ids"])
+    dist["identity-family:identities-of-the-most-frequent-name:%d" % max(count.values())] += 1
+    orphaned = [u for u in units if u["kind"] == "submodule" and u["owner"].startswith("y")]
+    tied = sum(1 for u in orphaned for n, _ in u["ids"] if count[n] > 1)
+    dist["identity-family:same-named-identities-in-submodules-of-absent-modules:%d" % min(tied, 3)] += 1
+    leaf = None
+    if rnd.random() < 0.4:
+        z, b = rnd.choice(roots)
+        leaf = "  leaf l { type identityref { base %s:%s; }%s }\n" % (z, b, rnd.choice(["", "", " default v;", " default %s:v;" % z]))
+        dist["identity-family:identityref-leaf"] += 1
+    for u in units + holders:
+        imps = "".join("  import %s { prefix %s; }\n" % (m, m) for m in sorted(u["imports"]) if m != u["name"])
+        incs = "".join("  include %s;\n" % s for s in u["includes"])
+        ids = "".join("  identity %s {%s }\n" % (n, "".join(" base %s;" % r for r in refs)) for n, refs in u["ids"])
+        if u["kind"] == "module":
+            head = 'module %s {\n  namespace "urn:%s";\n  prefix %s;\n' % (u["name"], u["name"], u["prefix"])
+            if leaf and rnd.random() < 0.5:
+                ids, leaf = ids + leaf, None
+        else:
+            head = "submodule %s {\n  belongs-to %s { prefix %s; }\n" % (u["name"], u["owner"], u["prefix"])
+        texts.append((u["name"] + ".yang", head + imps + incs + ids + "}\n"))
+    return hist_line(options(rnd, dist), history(rnd, texts, dist), texts)
+
+
 # ------------------------------------------------------------------ (i-c) small texts whose naive processing blows up
 
 def module_text(name, body, imports=()):
@@ -2174,6 +2315,10 @@ def gen_chunk(arg):
         cases.append(("numeric-strings", numeric_case(rnd, dist)))
     for _ in range(max(1, npaths // 2)):
         cases.append(("search-path", fs_case(rnd, dist)))
+    # drawn from a generator of its own, so that the streams above stay what they were for a given seed
+    rid = random.Random("C01/identity-families/%d/%d" % (seed, k))
+    for _ in range(max(1, npaths // 2)):
+        cases.append(("identity-families", identity_case(rid, dist)))
     for _ in range(nmut):
         r = rnd.random()
         if r < 0.35 and groups:
@@ -2588,6 +2733,11 @@ def run(res, tier, seed, proof):
         "towers to 2^9 copies; the one listed input beyond that (D13) is run in the thorough tier only"
         % ("3000" if tier == "quick" else "20000"),
         "legacy AST lookups FindNode / ChildNode / PrintNode and JSON marshalling of entries are not exercised",
+        "identity resolution over incomplete module sets (generator identity-families: several identities of one name in "
+        "modules, in submodules of loaded modules and in submodules whose belongs-to module is not loaded, meeting in one "
+        "derived-identities list) is checked by the implementation-side oracle only - Process and the reads must return, "
+        "with or without errors; no model is consulted here (the order and content of Identity.Values are C11's subject, "
+        "Model/Identity.v)",
     ]
     return cov, assumptions
 
